@@ -621,3 +621,10 @@ _remap = _pair('c11', 'remap', (200, 400), 'records generated once, then channel
                ['FrameItem.channel_name_mapping', 'LogicalFile._make_multi_frame_data', 'ChannelItem.dataset_name'], replay=D + 'replay_remap', validate=D + 'replay_remap')
 for _p in ('C11', 'C14'):
     SPECS[_p]['obligations'] = SPECS[_p]['obligations'] + _remap
+
+# a second write with data of another dtype: declared code == dtype of the slots (C03 round trip, C08 descriptors)
+_secdt = _pair('c11', 'second_dtype', (300, 600), 'one channel, records generated twice: 8 x 8 dtypes, 1..2 rows, with / without an explicit cast',
+               ['LogicalFile._make_multi_frame_data', 'FrameItem.setup_from_data', 'ChannelItem._set_repr_code_from_data', 'FrameItem.known_channel_dtypes_mapping'],
+               replay=D + 'replay_second_dtype', validate=D + 'replay_second_dtype', shards=(8, 8))
+for _p in ('C03', 'C08'):
+    SPECS[_p]['obligations'] = SPECS[_p]['obligations'] + _secdt
